@@ -74,6 +74,7 @@ type ControlPlane struct {
 
 	muRealDomainSet   sync.RWMutex
 	realDomainSet     *bloom.BloomFilter
+	realDomainSetAdds uint     // names added since the filter was last cleared; guarded by muRealDomainSet
 	realDomainNegSet  sync.Map // map[string]int64 (expiresAt unix nano)
 	dnsDialerSnapshot sync.Map // map[dnsDialerSnapshotKey]*dnsDialerSnapshotEntry
 	dnsDialerPenalty  sync.Map // map[dnsDialerPenaltyKey]*dnsDialerPenaltyEntry
@@ -119,6 +120,12 @@ type controlPlaneBuildOptions struct {
 	delayDatapathCommit   bool
 	delayDNSListenerStart bool
 }
+
+// realDomainSetCapacity is the number of names realDomainSet is sized for. The filter is
+// cleared before it takes more: a Bloom filter that is only ever added to stops rejecting
+// anything (p=0.001 at 2048 names, but 0.13 at 5000 and 0.99 at 20000), and dial_mode
+// "domain" must not send a never-verified name to the proxy. A dropped name is probed again.
+const realDomainSetCapacity = 2048
 
 const (
 	janitorBatchLookupSize = 1024
@@ -726,7 +733,7 @@ func newControlPlaneWithContextOptions(
 		sharedBpfReload:             _bpf != nil,
 		pendingDnsReloadCache:       dnsCache,
 		muRealDomainSet:             sync.RWMutex{},
-		realDomainSet:               bloom.NewWithEstimates(2048, 0.001),
+		realDomainSet:               bloom.NewWithEstimates(realDomainSetCapacity, 0.001),
 		tcpSniffNegSet:              make(map[tcpSniffNegKey]tcpSniffNegEntry),
 		negJanitorStop:              make(chan struct{}),
 		negJanitorDone:              make(chan struct{}),
@@ -1750,7 +1757,12 @@ func (c *ControlPlane) probeAndUpdateRealDomain(domain string) bool {
 	}
 
 	c.muRealDomainSet.Lock()
+	if c.realDomainSetAdds >= realDomainSetCapacity {
+		c.realDomainSet.ClearAll()
+		c.realDomainSetAdds = 0
+	}
 	c.realDomainSet.AddString(domain)
+	c.realDomainSetAdds++
 	c.muRealDomainSet.Unlock()
 	c.realDomainNegSet.Delete(domain)
 	return true
